@@ -162,7 +162,13 @@ impl<T> RawTable<T> {
     /// While we try to make this incremental where possible, it may require all-at-once resizing.
     #[cfg_attr(feature = "inline-more", inline)]
     pub(crate) fn reserve(&mut self, additional: usize, hasher: impl Fn(&T) -> u64) {
-        let need = self.leftovers.as_ref().map_or(0, |t| t.table.len()) + additional;
+        // NOTE: If this overflows, we can't possibly have enough spare capacity, so saturating
+        // sends us down the growing path, which then reports the capacity overflow.
+        let need = self
+            .leftovers
+            .as_ref()
+            .map_or(0, |t| t.table.len())
+            .saturating_add(additional);
         if self.table.capacity() - self.table.len() > need {
             // We can accommodate the additional items without resizing, so all is well.
             if cfg!(debug_assertions) {
@@ -205,7 +211,13 @@ impl<T> RawTable<T> {
         additional: usize,
         hasher: impl Fn(&T) -> u64,
     ) -> Result<(), TryReserveError> {
-        let need = self.leftovers.as_ref().map_or(0, |t| t.table.len()) + additional;
+        // NOTE: If this overflows, we can't possibly have enough spare capacity, so saturating
+        // sends us down the growing path, which then reports the capacity overflow.
+        let need = self
+            .leftovers
+            .as_ref()
+            .map_or(0, |t| t.table.len())
+            .saturating_add(additional);
         if self.table.capacity() - self.table.len() > need {
             // we can accommodate the additional items without resizing, so all good
             if cfg!(debug_assertions) {
@@ -489,10 +501,13 @@ impl<T> RawTable<T> {
         // We also need to make sure we can fit the additional capacity required for `extra`.
         // Normally, that'll be handled by `inserts`, but not always!
         let add = usize::max(extra, inserts);
+        // NOTE: These saturate rather than overflow; a saturated capacity can never be
+        // allocated, so it makes the allocation below report the capacity overflow.
+        let capacity = need.saturating_add(inserts).saturating_add(add);
         let new_table = if fallible {
-            raw::RawTable::try_with_capacity(need + inserts + add)?
+            raw::RawTable::try_with_capacity(capacity)?
         } else {
-            raw::RawTable::with_capacity(need + inserts + add)
+            raw::RawTable::with_capacity(capacity)
         };
         let old_table = mem::replace(&mut self.table, new_table);
         if old_table.len() != 0 {
